@@ -193,6 +193,9 @@ class ContractAPI(object):
             sec_keys.append(data)
         if pc >= len(script):
             return None
+        if not OP_1 <= opcode <= OP_16:
+            # the key count must be one of OP_1 .. OP_16, not whatever opcode byte follows them
+            return None
         n = opcode + (1 - OP_1)
         if m > n or len(sec_keys) != n:
             return None
